@@ -860,6 +860,27 @@ def rule_clock_fallback(ctx) -> None:
     ctx.floor("C01.CLOCK", "try-wrapped clock parses followed by a wall-clock fill-in", n_try, 1)
 
 
+def rule_file_times(ctx) -> None:
+    """file modification times are wall-clock readings that are not part of a file's content: a copy, a checkout or a stepped
+    clock changes them while names and bytes stay the same.  A choice made by them on the boot path (which snapshot a fresh
+    state is restored from) makes two replays from byte-identical snapshot directories diverge."""
+    n = 0
+    for mn in ("clematis.engine.snapshot", "clematis.engine.apply", "clematis.engine.orchestrator.core"):
+        if mn not in ctx.prog.modules:
+            continue
+        for fn in ctx.prog.module(mn).funcs.values():
+            for x in ast.walk(fn.node):
+                hit = (isinstance(x, ast.Call) and call_tail(x) in ("getmtime", "getctime", "getatime")) or (isinstance(x, ast.Attribute) and x.attr in ("st_mtime", "st_ctime", "st_mtime_ns", "st_atime"))
+                if not hit:
+                    continue
+                n += 1
+                ctx.violation("C01.CTRL", ctx.okey(f"{fn.qual}/choice-by-file-mtime"), fn.loc(x),
+                              f"`{src(x)[:40]}` ranks files by modification time: an agent without a snapshot of its own boots from whichever state_*.json was touched last, so two replays from "
+                              "snapshot directories with identical names and bytes but different mtimes start from different versions and graphs (apply.jsonl version_etag and the snapshot bodies differ)")
+    probe = ast.parse("import os\ndef _p(ps):\n    return sorted(ps, key=lambda p: os.path.getmtime(p))\n")
+    ctx.floor("C01.CTRL", "positive control: getmtime recognised", sum(1 for x in ast.walk(probe) if isinstance(x, ast.Call) and call_tail(x) == "getmtime"), 1)
+
+
 def rule_process_state(ctx) -> None:
     """a fresh process and a warm one (earlier turns, another engine state) must write the same bytes: no function on the
     canonical path keeps results in an object that outlives the call by accident - a mutable default argument the body edits
@@ -915,6 +936,7 @@ def run(ctx) -> None:
     rule_process_state(ctx)
     rule_cache_clock(ctx)
     rule_clock_fallback(ctx)
+    rule_file_times(ctx)
     rule_time(ctx)
     rule_host_tz(ctx)
     rule_hist(ctx)
